@@ -775,7 +775,8 @@ META = {
             "agreement, no ambiguous ndarray truth tests on quantum numbers, quantum numbers carried by every rebuilt Op, aggregation "
             "order in Op.product, factor expressions of neg/mul/div/product/merge are the homomorphic image). It does not decide the "
             "value-level homomorphism for all expressions and models; that remainder is declared, not claimed."
-            ' The dunder methods of Op / OpSum are run abstractly on symbolic operators: every term of a sum, difference, product, negation, in-place sum or scalar division is present once with operands in written order and the written sign.',
+            ' The dunder methods of Op / OpSum are run abstractly on symbolic operators: every term of a sum, difference, product, negation, in-place sum or scalar division is present once with operands in written order and the written sign.'
+            ' The scalar side of the algebra (negation, multiplication by python and numpy scalars, Op.product, removal of identity factors) is run on operator stand-ins of the source class: the factor of the result is the homomorphic image, also when nothing but identities is left.',
     "note": "Types come from the annotation List[np.ndarray] on qn_list and from loop/zip binding; an Op(...) site is in scope when its "
             "symbol argument is data-dependent on .symbol/.split_symbol. Forms outside the interpreted fragment give exit 2.",
     "design_ref": "DESIGN.md 3.9, 4 (C15); as built: 9.1, 9.3, 9.8",
